@@ -410,6 +410,10 @@ func c16RS(u *vfUnit, part, parts int) {
 	if u.Tier == vfThorough {
 		batches = append(batches, 100)
 	}
+	if part == 0 {
+		// MaxFilelist is the embedder's to raise as well: batches of more than a hundred entries
+		batches = append(batches, 250)
+	}
 	caseNo := 0
 	for _, batch := range batches {
 		MaxFilelist = int64(batch)
